@@ -320,6 +320,12 @@ func (fr *Frame) execBlock(b *ssa.BasicBlock, entrySt *State, entryReach string)
 	fr.cur = st
 	fr.curReach = reach
 	fr.curBlock = b
+	// cover: every block the model can reach must be satisfiable - a contradictory set of assumptions
+	// (engine or contract fault) would otherwise discharge everything in it vacuously
+	if fr.top && b.Index != 0 && reach != "true" {
+		o := ex.vc.oblige("vacuity", fmt.Sprintf("%s/vacuity:block-%d-reachable", fr.key, b.Index), reach, "false", "block "+b.Comment+" is reachable under the assumptions", ex.posOf(firstPos(b)), nil)
+		o.Expect = "sat"
+	}
 
 	if li != nil {
 		fr.enterLoop(li, preds, conds, states)
@@ -706,4 +712,13 @@ func allocFirst(vars []string) []string {
 		}
 	}
 	return out
+}
+
+func firstPos(b *ssa.BasicBlock) token.Pos {
+	for _, ins := range b.Instrs {
+		if ins.Pos().IsValid() {
+			return ins.Pos()
+		}
+	}
+	return token.NoPos
 }
